@@ -47,6 +47,8 @@ PLAN = {
     "C02": (["default", "compact", "radix+format"], ["pow2", "format", "radix", "compact+radix+format", "nostd"]),
     "C03": (["default", "compact", "pow2", "radix", "compact+radix", "radix+format"], ["compact+radix+format", "nostd"]),
     "C05": (["pow2", "radix", "compact+radix", "radix+format"], ["compact+radix+format", "compact+pow2", "pow2+format"]),
+    "C06": (["pow2", "radix", "compact+radix", "radix+format"], ["compact+pow2", "pow2+format", "compact+radix+format"]),
+    "C07": (["radix", "compact+radix", "radix+format"], ["compact+radix+format"]),
     "C10": (["default", "default:checked", "radix+format", "radix+format:checked", "compact+radix+format"], ["compact", "format", "compact+radix+format:checked", "radix", "pow2+format"]),
     "C11": (["default", "compact", "radix+format", "compact+radix+format"], ["format", "radix", "pow2+format"]),
     "C12": (["format", "radix+format", "compact+radix+format"], ["pow2+format", "compact+format"]),
